@@ -31,7 +31,7 @@ def _parents(root: ast.AST):
     return par
 
 
-def check(ctx, res) -> None:
+def _check_body(ctx, res) -> None:
     idx = ctx.idx
     eng = idx.need_class("rope.contrib.codeassist._PythonCodeAssist")
     init = eng.methods.get("__init__")
@@ -108,6 +108,16 @@ def check(ctx, res) -> None:
     ok_rec = bool(rec) and all(
         len(c.args) <= li and not any(k.arg == "lineno" and not (isinstance(k.value, ast.Constant) and k.value.value is None) for k in c.keywords)
         and c.args and isinstance(c.args[0], ast.Attribute) and c.args[0].attr == "parent" for c in rec)
+    if not rec:
+        # the walk up the parents written as a loop: the enclosing scopes are collected as (scope, None) pairs while
+        # following `.parent`, the given scope as (scope, lineno), and one loop over the pairs binds `lineno` again
+        pairs_none = [c for w in walk_local(und.node) if isinstance(w, ast.While) and any(isinstance(x, ast.Attribute) and x.attr == "parent" for x in ast.walk(w.test))
+                      for st in w.body for c in ast.walk(st)
+                      if isinstance(c, ast.Call) and isinstance(c.func, ast.Attribute) and c.func.attr in ("append", "insert") and c.args
+                      and isinstance(c.args[-1], ast.Tuple) and len(c.args[-1].elts) == 2]
+        rebinding = [l for l in walk_local(und.node) if isinstance(l, ast.For) and isinstance(l.target, ast.Tuple) and len(l.target.elts) == 2
+                     and isinstance(l.target.elts[1], ast.Name) and l.target.elts[1].id == "lineno"]
+        ok_rec = bool(pairs_none) and bool(rebinding) and all(isinstance(c.args[-1].elts[1], ast.Constant) and c.args[-1].elts[1].value is None for c in pairs_none)
     src = {}
     for nd in cfg.nodes:
         if nd.kind == "stmt" and isinstance(nd.ast, ast.Assign) and isinstance(nd.ast.targets[0], ast.Name) \
@@ -369,3 +379,10 @@ def scope_by_offset_rule(ctx, res, rule: str) -> None:
                     + ": a name on a continuation line indented less than its `def`, or in one of two comprehensions on the same line, is evaluated "
                     "in the wrong scope -- go-to-definition answers nothing (or another binding) for a parameter or local", function=g.qualname)
     res.floor(rule, "scope lookups feeding the name evaluation", n, 1)
+
+
+def check(ctx, res) -> None:
+    _check_body(ctx, res)
+    from .common import identifier_char_rule
+
+    identifier_char_rule(ctx, res, "R20.13", ("rope.contrib.codeassist", "rope.contrib.fixsyntax", "rope.contrib.findit", "rope.base.worder"))
